@@ -217,7 +217,32 @@ def rescale_cases(ctx, rebound, ncases):
         n = rng.choice([1, 2, 3])
         for i in range(n):
             sim.add(m=1.0 if i == 0 else 1e-3, x=float(i), y=0.1 * i, vy=1.0 if i else 0.0)
-        integ = rng.choice(["whfast", "whfast", "whfast", "eos", "eos", "ias15", "leapfrog", "bs", "mercurius"])
+        integ = rng.choice(["whfast", "whfast", "whfast", "eos", "eos", "ias15", "ias15", "ias15", "leapfrog", "bs", "mercurius"])
+        # IAS15 state: step once with IAS15 so that its arrays are allocated (for the sets that exist at that time),
+        # then possibly add more sets (not covered by the allocation) and switch to the integrator under test
+        prestep = rng.random() < (0.85 if integ == "ias15" else 0.3)
+        cfgs = []
+        firsts = []
+        nv = rng.choice([1, 2, 3])
+
+        def add_set():
+            kind = rng.choice(["full", "full", "tp", "second"]) if firsts else rng.choice(["full", "full", "tp"])
+            if kind == "full":
+                var = sim.add_variation(); order = 1; firsts.append(var)
+            elif kind == "tp":
+                var = sim.add_variation(testparticle=rng.randrange(n)); order = 1
+            else:
+                var = sim.add_variation(order=2, first_order=firsts[0], first_order_2=rng.choice(firsts)); order = 2
+            cfgs.append((var, order))
+        n_before = rng.randint(0, nv) if prestep else 0
+        for v in range(n_before):
+            add_set()
+        if prestep:
+            sim.integrator = "ias15"
+            sim.dt = 1e-3
+            sim.step()
+        for v in range(nv - n_before):
+            add_set()
         sim.integrator = integ
         whs, eoss, sm = rng.random() < 0.7, rng.random() < 0.7, rng.random() < 0.5
         sim.ri_whfast.is_synchronized = 1 if whs else 0
@@ -227,18 +252,9 @@ def rescale_cases(ctx, rebound, ncases):
         sim.ri_whfast.recalculate_coordinates_this_timestep = 1 if rc0 else 0
         w0 = rng.choice([0, 0, 0, 1, 2, 3])
         sim._var_rescale_warning = w0
-        cfgs = []
-        nv = rng.choice([1, 2, 3])
-        firsts = []
-        for v in range(nv):
-            kind = rng.choice(["full", "full", "tp", "second"]) if firsts else rng.choice(["full", "full", "tp"])
-            if kind == "full":
-                var = sim.add_variation(); order = 1; firsts.append(var)
-            elif kind == "tp":
-                var = sim.add_variation(testparticle=rng.randrange(n)); order = 1
-            else:
-                var = sim.add_variation(order=2, first_order=firsts[0], first_order_2=rng.choice(firsts)); order = 2
-            cfgs.append((var, order))
+        ri = sim.ri_ias15
+        nalloc = ri._N_allocated
+        arrs = [ri._csx, ri._csv] + [getattr(d, "p%d" % j) for d in (ri._b, ri._csb, ri._e, ri._br, ri._er) for j in range(7)]
         tab, args, live = {}, [], []
         for var, order in cfgs:
             mode = rng.random()
@@ -261,23 +277,90 @@ def rescale_cases(ctx, rebound, ncases):
                 tab[scale] = math.log(scale)
             elif scale == float("inf"):
                 tab[scale] = float("inf")
-            args.append("(%d%%nat, %s, %s)" % (order, vlib.fhex(lres), vlib.flist(flat)))
-            live.append((var, len(ps)))
+            alloc = nalloc >= 3 * (var.index + len(ps))
+            state = []
+            if alloc:
+                for kk in range(3 * var.index, 3 * (var.index + len(ps))):
+                    for arr in arrs:
+                        arr[kk] = rng.gauss(0, 1) * mag * 1e-3 if rng.random() < 0.9 else 0.0
+                        state.append(arr[kk])
+            args.append("(%d%%nat, %s, %s, %s, %s)" % (order, vlib.fhex(lres), vlib.flist(flat), "true" if alloc else "false", vlib.flist(state)))
+            live.append((var, len(ps), alloc))
         sim._var_rescale_warning = w0
         clib.reb_simulation_rescale_var(ctypes.byref(sim))
         exp = [1.0 if sim._var_rescale_warning & 1 else 0.0, 1.0 if sim._var_rescale_warning & 2 else 0.0,
                float(sim.ri_whfast.recalculate_coordinates_this_timestep)]
-        for var, npart in live:
+        for var, npart, alloc in live:
             exp.append(var.lrescale)
             for p in var.particles:
                 exp += [p.x, p.y, p.z, p.vx, p.vy, p.vz]
+            if alloc:
+                for kk in range(3 * var.index, 3 * (var.index + npart)):
+                    exp += [arr[kk] for arr in arrs]
         b = lambda t: "true" if t else "false"
-        icode = {"whfast": 1, "eos": 2}.get(integ, 0)
+        icode = {"whfast": 1, "eos": 2, "ias15": 3}.get(integ, 0)
         term = "(runRescale %s [%s] %d %s %s %s %s %s %s [%s])" % (
             vlib.fhex(BIG), "; ".join("(%s, %s)" % (vlib.fhex(a), vlib.fhex(bv)) for a, bv in tab.items()), icode,
             b(whs), b(eoss), b(sm), b(w0 & 1), b(w0 & 2), b(rc0), "; ".join(args))
-        cases.append(("rescale", term, exp, {"integrator": integ, "wh_sync": whs, "eos_sync": eoss, "safe_mode": sm, "nvar": nv}))
-        ctx.case(key=("rescale", integ, whs, eoss, sm, nv))
+        cases.append(("rescale", term, exp, {"integrator": integ, "wh_sync": whs, "eos_sync": eoss, "safe_mode": sm, "nvar": nv, "ias15_allocated_sets": sum(1 for l in live if l[2])}))
+        ctx.case(key=("rescale", integ, whs, eoss, sm, nv, sum(1 for l in live if l[2])))
+    return cases
+
+
+# ------------------------------------------------------------------ WHFast interaction step correspondence
+def whloop_cases(ctx, rebound, ncases):
+    """reb_whfast_interaction_step(r, dt) called directly (Jacobi coordinates, gravity basic) on simulations whose p_jh is
+    allocated, with random Jacobi positions/velocities, inertial accelerations, 1-2 variation sets, N_active, softening.
+    The Jacobi accelerations p_j[..].a written by the function's two transform calls are read back and given to the model."""
+    rng = ctx.rng
+    clib = rebound.clibrebound
+    D = ctypes.c_double
+    cases = []
+    for k in range(ncases):
+        n = rng.choice([2, 3, 3, 4, 5])
+        sim = rebound.Simulation()
+        sim.integrator = "whfast"
+        sim.dt = 1e-3
+        sim.G = rng.choice([1.0, 39.47841760435743])
+        for i in range(n):
+            sim.add(m=1.0 if i == 0 else rng.choice([0.0, 10 ** rng.uniform(-6, -2)]), a=None if i == 0 else 1.0 + 0.7 * i,
+                    e=None if i == 0 else 0.05, f=None if i == 0 else rng.uniform(0, 6)) if i else sim.add(m=1.0)
+        nv = rng.choice([1, 2])
+        vs = [sim.add_variation() for _ in range(nv)]
+        for v in vs:
+            for p in v.particles:
+                p.x, p.y, p.vx = rng.gauss(0, 1), rng.gauss(0, 1), rng.gauss(0, 1)
+        sim.step()                       # allocates ri_whfast.p_jh for all N particles
+        nact = rng.choice([-1, -1, rng.randint(1, n)])
+        sim.N_active = nact
+        tpt = rng.random() < 0.3
+        sim.testparticle_type = 1 if tpt else 0
+        na = n if (nact == -1 or tpt) else nact
+        soft = rng.choice([0.0, 0.0, 10 ** rng.uniform(-3, -1)])
+        sim.softening = soft
+        N = sim.N
+        pj = sim.ri_whfast._p_jh
+        for i in range(N):
+            for c in ("ax", "ay", "az"):
+                setattr(sim.particles[i], c, rng.gauss(0, 1))
+            for c in ("x", "y", "z", "vx", "vy", "vz"):
+                setattr(pj[i], c, rng.gauss(0, 1) * 10 ** rng.uniform(-1, 1))
+        before = [[getattr(pj[i], c) for c in ("x", "y", "z", "vx", "vy", "vz")] for i in range(N)]
+        dt = rng.choice([1e-3, -2e-3, rng.uniform(0.001, 0.1)])
+        clib.reb_whfast_interaction_step(ctypes.byref(sim), D(dt))
+        acc = [[getattr(pj[i], c) for c in ("ax", "ay", "az")] for i in range(N)]
+        items, exp = [], []
+        for i in range(1, n):
+            dps = [before[i + v.index] + acc[i + v.index] for v in vs]
+            items.append("(%s, %s, [%s])" % (vlib.fhex(pj[i].m), vlib.flist(before[i] + acc[i]), "; ".join(vlib.flist(d) for d in dps)))
+            exp += [pj[i].vx, pj[i].vy, pj[i].vz]
+            for v in vs:
+                q = pj[i + v.index]
+                exp += [q.vx, q.vy, q.vz]
+        term = "(runWhLoop %s %s %s %d %s [%s])" % (vlib.fhex(sim.G), vlib.fhex(dt), vlib.fhex(soft), na,
+                                                    vlib.fhex(sim.particles[0].m), "; ".join(items))
+        cases.append(("whloop", term, exp, {"N": n, "N_active": nact, "testparticle_type": tpt, "nvar": nv, "softening": soft}))
+        ctx.case(key=("whloop", n, nact, tpt, nv, soft != 0.0))
     return cases
 
 
@@ -300,7 +383,7 @@ def run_corr(ctx, label, cases, header):
 
 
 HEADER = ("From Coq Require Import List ZArith PrimFloat.\nFrom RV Require Import Common.Num Common.FloatNum C02.Model C02.Run "
-          "C16.GravityVar Gen.Derivs C16.Rescale C16.Run.\nImport ListNotations.\nOpen Scope float_scope.\n")
+          "C16.GravityVar Gen.Derivs C16.Rescale C16.WhInteraction C16.Run.\nImport ListNotations.\nOpen Scope float_scope.\n")
 
 
 def run(ctx):
@@ -349,9 +432,14 @@ def run(ctx):
     rc = rescale_cases(ctx, rebound, ctx.scale(180, 2400))
     ok3, bad3 = run_corr(ctx, "rescale", rc, HEADER)
     ctx.obligation("correspondence:C16 rescale_all (binary64, libm log supplied) == reb_simulation_rescale_var on real simulations "
-                   "with 1-3 variation sets, bit-for-bit on %d cases (lrescale, all coordinates, warning bits 1|2, WHFast recalculate flag)"
+                   "with 1-3 variation sets, bit-for-bit on %d cases (lrescale, all coordinates, IAS15 csx/csv/b/csb/e/br/er of each set, warning bits 1|2, WHFast recalculate flag)"
                    % len(rc), ok3 and not bad3, "mismatching cases: %s" % [rc[b][3] for b in bad3[:8]])
-    ctx.traces = (len(gc) if ok1 else 0) + (len(dc) if ok2 else 0) + (len(rc) if ok3 else 0)
+    # ---- correspondence 4: the loop of reb_whfast_interaction_step (Jacobi coordinates) with variational particles
+    wc = whloop_cases(ctx, rebound, ctx.scale(120, 1500))
+    ok4, bad4 = run_corr(ctx, "whloop", wc, HEADER)
+    ctx.obligation("correspondence:C16 wh_loop (binary64) == reb_whfast_interaction_step on real and variational Jacobi particles, "
+                   "bit-for-bit on %d cases" % len(wc), ok4 and not bad4, "mismatching cases: %s" % [wc[b][3] for b in bad4[:8]])
+    ctx.traces = (len(gc) if ok1 else 0) + (len(dc) if ok2 else 0) + (len(rc) if ok3 else 0) + (len(wc) if ok4 else 0)
 
     # ---- searcher
     c16_search.search(ctx, rebound, libdir)
